@@ -2477,6 +2477,9 @@ class Driver(object, metaclass=DriverMetaclass):
                 with model._relevance.nonlinear_active('iter'):
                     res = f_lsq()
                     self.result.success = res.success and res.cost <= loss_tol
+                    # leave the model at the solution rather than at the last trial point
+                    self._compute_con_viol(res.x, list(desvar_vals.keys()),
+                                           driver_scaling=driver_scaling)
 
             if model._post_components:
                 with model._relevance.nonlinear_active('post'):
@@ -2486,6 +2489,9 @@ class Driver(object, metaclass=DriverMetaclass):
             with SaveOptResult(self):
                 res = f_lsq()
                 self.result.success = res.success and res.cost <= loss_tol
+                # leave the model at the solution rather than at the last trial point
+                self._compute_con_viol(res.x, list(desvar_vals.keys()),
+                                       driver_scaling=driver_scaling)
 
         if iprint >= 1:
             if res.success:
